@@ -8,11 +8,14 @@
    F18 overlapping targets counted twice); before them each of the three statements
    below was false (see known_findings.d/C18.json for the witnesses on the binary).
 
+   Patterns are read in the full doublestar syntax the code accepts (Cli/GlobX.v [xglob]:
+   * ? ** [abc] [a-c] [!a] [^a] {a,b} nested, \c); malformed patterns match nothing.
+
    Quantification: every directory tree [w] (well-formed: ordinary names, no two entries
    of a directory with the same name), every working directory, every list of targets in
    every spelling, every include/exclude pattern list, recursive or not. *)
 From Coq Require Import NArith List Bool.
-From PV Require Import Gen.FileSelConst Cli.Glob Cli.FileSel Cli.PathProofs Cli.FileSelProofs Cli.FileSelExamples Cli.FileSelPinned.
+From PV Require Import Gen.FileSelConst Cli.Glob Cli.GlobX Cli.GlobXProofs Cli.FileSel Cli.PathProofs Cli.FileSelProofs Cli.FileSelXProofs Cli.FileSelExamples Cli.FileSelPinned.
 Import ListNotations.
 
 (* The set of files analysed is exactly the Python files under the given targets that match
@@ -55,11 +58,48 @@ Proof. exact spec_list_correct. Qed.
 
 (* a default exclude such as test_*.py applies to matching files at any depth *)
 Theorem C18_exclude_by_name_any_depth : forall inc exc p d b,
-  In p exc -> has_slash p = false -> glob p [b] = true -> ~ selected inc exc (d ++ [b]).
+  In p exc -> has_slash p = false -> xglob p [b] = true -> ~ selected inc exc (d ++ [b]).
 Proof. exact exclude_by_name_any_depth. Qed.
 Theorem C18_default_exclude_any_depth : forall inc p d b,
-  In p filesel_default_exclude -> glob p [b] = true -> ~ selected inc filesel_default_exclude (d ++ [b]).
+  In p filesel_default_exclude -> xglob p [b] = true -> ~ selected inc filesel_default_exclude (d ++ [b]).
 Proof. exact default_exclude_any_depth. Qed.
+
+(* ---- the full pattern language (Cli/GlobX.v) ---------------------------------------------------- *)
+(* a pattern without '/' — whatever it is made of: classes, negated classes, alternatives, escapes,
+   malformed — gives a file d/b the verdict it gives the bare name b: the depth of the file below
+   the target does not matter *)
+Theorem C18_slashless_pattern_depth_independent : forall p d b, has_slash p = false ->
+  matches_pattern p (d ++ [b]) = matches_pattern p [b].
+Proof. exact matches_pattern_slashless_depth. Qed.
+
+(* ... hence with include/exclude lists of such patterns a file gets the same verdict seen from the
+   project root (d/b) and from its own directory (b) *)
+Theorem C18_slashless_lists_same_verdict_at_every_depth : forall inc exc d b,
+  forallb (fun p => negb (has_slash p)) (inc ++ exc) = true ->
+  should_include_file (d ++ [b]) inc exc = should_include_file [b] inc exc.
+Proof. exact should_include_slashless_depth. Qed.
+
+(* the matcher for the full syntax is Cli/Glob.v's matcher on patterns without [ ] { } \ *)
+Theorem C18_xglob_conservative : forall p path, forallb meta_free p = true -> xglob p path = glob p path.
+Proof. exact xglob_conservative. Qed.
+
+(* {test,spec}_*.py, [!a-z]*.py, [^a-z]*.py select by file name at depth 0, 1 and 2 *)
+Theorem C18_example_brace_any_depth :
+  matches_pattern p_brace [n_spec_core] = true /\
+  matches_pattern p_brace [n_pkg; n_spec_core] = true /\
+  matches_pattern p_brace [n_pkg; n_deep; n_spec_core] = true /\
+  matches_pattern p_brace [n_pkg; n_core] = false.
+Proof. exact ex_brace_any_depth. Qed.
+Theorem C18_example_negated_class_any_depth :
+  matches_pattern p_negcls [n_Core] = true /\ matches_pattern p_negcls [n_pkg; n_deep; n_Core] = true /\
+  matches_pattern p_negcls [n_pkg; n_core] = false /\
+  matches_pattern p_negcls2 [n_pkg; n_Core] = true /\ matches_pattern p_negcls2 [n_pkg; n_core] = false.
+Proof. exact ex_negated_class_any_depth. Qed.
+Theorem C18_example_brace_in_path :
+  matches_pattern p_brace_path [n_tests; n_core] = true /\
+  matches_pattern p_brace_path [n_pkg; n_tests; n_deep; n_core] = true /\
+  matches_pattern p_brace_path [n_pkg; n_core] = false.
+Proof. exact ex_brace_in_path. Qed.
 
 (* the model of filepath.Abs/Join agrees with "location of the directory, then the name" *)
 Theorem C18_abs_join : forall cwd p n, plain n = true ->
@@ -116,6 +156,12 @@ Print Assumptions C18_spelling_invariant.
 Print Assumptions C18_spec_list_correct.
 Print Assumptions C18_exclude_by_name_any_depth.
 Print Assumptions C18_default_exclude_any_depth.
+Print Assumptions C18_slashless_pattern_depth_independent.
+Print Assumptions C18_slashless_lists_same_verdict_at_every_depth.
+Print Assumptions C18_xglob_conservative.
+Print Assumptions C18_example_brace_any_depth.
+Print Assumptions C18_example_negated_class_any_depth.
+Print Assumptions C18_example_brace_in_path.
 Print Assumptions C18_abs_join.
 Print Assumptions C18_file_target_ok_plain.
 Print Assumptions C18_example_world_wf.
